@@ -199,6 +199,57 @@ func c04Run(c *Ctx) {
 			rc()
 		}
 	}
+	// 4b. function-name rebinding histories: the function value kept under other
+	// references (variable, array element, object property) while its name is
+	// reassigned / shadowed; calls through every reference; reads of the name
+	{
+		pre := Lines(Var("h", "nil"), Var("arr", "[nil]"), Var("ob", "{}"))
+		evs := []string{
+			Fun("f", "x", " "+Print(`"f-body " + x`)+" "+Ret("x")+" "),
+			"h = f;", "f = %f;", Print("f(%f)"), Print("h(%f)"), Print("f"), Print("h"),
+			"arr[0] = f;", Print("arr[0](%f)"), "ob.m = f;", Print("ob.m(%f)"), "{", "}", Var("f", "%f"),
+		}
+		maxLen := c.N(4, 5)
+		seq := []int{0}
+		var rc func(open int)
+		rc = func(open int) {
+			if len(seq) > 1 && c.Mine() {
+				var b strings.Builder
+				b.WriteString(pre)
+				tag := 500
+				for _, e := range seq {
+					t := evs[e]
+					for strings.Contains(t, "%f") {
+						tag++
+						t = strings.Replace(t, "%f", fmt.Sprint(tag), 1)
+					}
+					b.WriteString(t + "\n")
+				}
+				b.WriteString(strings.Repeat("}\n", open))
+				b.WriteString(Print("f") + "\n" + Print("h") + "\n")
+				c04Judge(c, &Case{Gen: "function-name-rebinding", Src: b.String()})
+			}
+			if len(seq) == maxLen+1 {
+				return
+			}
+			for e := range evs {
+				no := open
+				if e == 11 {
+					no++
+				}
+				if e == 12 {
+					if open == 0 {
+						continue
+					}
+					no--
+				}
+				seq = append(seq, e)
+				rc(no)
+				seq = seq[:len(seq)-1]
+			}
+		}
+		rc(0)
+	}
 	// 5. random compositions
 	r := c.Rand("random")
 	n := c.N(10000, 200000)
@@ -239,6 +290,10 @@ func c04Handwritten() []string {
 		Lines(Fun("adder", "a", " "+Fun("add", "b", " "+Ret("a + b")+" ")+" "+Ret("add")+" "), Print("adder(1)(2)"), Var("a5", "adder(5)"), Print("a5(10)"), Print("adder(100)(a5(1))")),
 		// accumulator closed over by several closures stored in an object
 		Lines(Fun("acc", "", " "+Var("total", "0")+" "+Fun("add", "x", " total = total + x; "+Ret("total")+" ")+" "+Fun("reset", "", " total = 0; "+Ret("total")+" ")+" "+Ret("{add: add, reset: reset}")+" "), Var("o1", "acc()"), Var("o2", "acc()"), Print("o1.add(5)"), Print("o1.add(6)"), Print("o2.add(1)"), Print("o1.reset()"), Print("o1.add(2)"), Print("o2.add(1)")),
+		// a function's name is an ordinary binding: rebinding it is not undone by calling the old value
+		Lines(Fun("f", "", " "+Ret("1")+" "), Var("g", "f"), "f = 5;", Print("g()"), Print("f"), Print("g()"), Print("f")),
+		Lines(Fun("price", "x", " "+Ret("x + 1")+" "), Var("old", "price"), "price = nil;", Print("old(1)"), Print("price"), "{", Fun("price", "x", " "+Ret("old(x) + 100")+" "), Print("price(1)"), Print("price(1)"), "}", Print("price")),
+		Lines(Var("tab", "[nil]"), "{", Fun("f", "", " "+Ret("7")+" "), "tab[0] = f;", "f = 0;", Print("tab[0]()"), Print("f"), "}", Print("tab[0]()")),
 		// arity and non-function faults carry the call's line
 		Lines(Fun("f", "a", " "+Ret("a")+" "), Print(`"x"`), Print("f(1)"), Print("f()")),
 		Lines(Fun("f", "a", " "+Ret("a")+" "), Print(`"x"`), Print("f(1, 2)")),
